@@ -230,3 +230,215 @@ def obligations(ctx):
                 nonempty = z3.ForAll([x], z3.Function("container_len", E.U, z3.IntSort())(x) > 0)
                 ob.vc("%s bundle absent only without a mint builder or when it is empty" % nm, list(o.pc) + [nonempty], z3.Not(has_mint))
     ob.finish(E)
+    fee_alignment_contracts(ctx)
+    change_step(ctx)
+
+
+# ---------------------------------------------------------------------- the balancing step itself
+MAXP = 30000
+
+
+def change_step(ctx):
+    """ONE call of add_change_if_needed_with_optional_script_and_datum from an arbitrary builder state:
+         Ok(_)  =>  total_input == total_output(before) + outputs added by the call + fee stored by the call
+       for lovelace and for an arbitrary native asset.  Together with the accounting obligations above
+       (total_output == outputs + deposits + burn + donation) this is the preservation-of-value rule for the body
+       `build()` assembles from the same state — also when the caller never passes the build_tx gate.
+       Environment (every stub is part of the claim): get_total_input / get_total_output return arbitrary values or
+       fail; the size-dependent free function min_fee(&builder) returns an arbitrary coin or fails (each call an
+       independent value); MinOutputAdaCalculator results are arbitrary; pack_nfts_for_change returns 0..2 arbitrary
+       bundles or fails; add_output admits (appending to the output list) or refuses.  Everything else — the fee
+       alignment (TransactionBuilder::min_fee, fee_for_output, get_new_fee, set_final_fee), the change arithmetic,
+       burn_extra, the comparison of totals — is executed from MIR; Value arithmetic through the valuemodel summaries."""
+    P = ctx.P
+    TB = P.struct_fields["TransactionBuilder"]
+    thorough = ctx.tier == "thorough"
+    ROUNDS = 2 if thorough else 1
+    NODATUM = not thorough
+    E = Engine(P, max_loop=ROUNDS, opaque=[r"::to_json$"])
+    def may_fail(E_, tag):
+        """environment failure of a stubbed callee: the FIRST call of each kind on a path may fail (later calls of the same
+        kind on that path succeed — their failure handling is the same code, reached on the paths where they come first)"""
+        if any(t[0] == "called" and t[1] == tag for t in E_.trace):
+            return False
+        E_.trace.append(("called", tag))
+        good = E_.fresh(tag + "_ok", "bool")
+        return E_.choose([good, z3.Not(good)], tag) == 1
+    VM.install(E)
+    tin, tout = SymValue(E, "tin"), SymValue(E, "tout")
+    g_in, g_out = z3.Bool("tin_ok"), z3.Bool("tout_ok")
+    E.extra_intrinsics[r"TransactionBuilder::get_total_input$"] = stub_result(E, g_in, tin.build)
+    E.extra_intrinsics[r"TransactionBuilder::get_total_output$"] = stub_result(E, g_out, tout.build)
+    def fresh_coin_result(tag):
+        def f(E_, c, args):
+            if may_fail(E_, tag):
+                return VEnum("Result", "Err", [VOpaque("err:" + tag)])
+            v = E_.fresh(tag)
+            E_.pc.append(z3.And(v >= 0, v <= U64))
+            return VEnum("Result", "Ok", [VM.bn(v)])
+        return f
+    # fee alignment contracts (established from MIR by c05_e2_fee_alignment_contracts below):
+    #   TransactionBuilder::min_fee   : Exactly(x) => x ; NotLess(n) => some fee >= n ; Unspecified => any fee
+    #   TransactionBuilder::fee_for_output : Exactly(_) => 0 ; otherwise any increase >= 0
+    def fee_request_of(E_, tb):
+        fr = VM.deref(E_, VM.deref(E_, tb).fields[TB.index("fee_request")])
+        if isinstance(fr, VLazy):
+            fr = E_.force_enum(fr)
+        return fr
+    def coin_of(E_, v):
+        v = VM.deref(E_, v)
+        return v.fields[0].t if isinstance(v, VStruct) else E_.nav(v, [("field", 0, "u64")]).t
+    def aligned(tag, exactly):
+        def f(E_, c, args):
+            if may_fail(E_, tag):
+                return VEnum("Result", "Err", [VOpaque("err:" + tag)])
+            fr = fee_request_of(E_, args[0])
+            v = E_.fresh(tag)
+            E_.pc.append(z3.And(v >= 0, v <= U64))
+            if fr.variant == "Exactly":
+                E_.pc.append(v == exactly(E_, fr))
+            elif fr.variant == "NotLess" and tag == "min_fee":
+                E_.pc.append(v >= coin_of(E_, fr.fields[0]))
+            return VEnum("Result", "Ok", [VM.bn(v)])
+        return f
+    E.extra_intrinsics[r"TransactionBuilder::min_fee$"] = aligned("min_fee", lambda E_, fr: coin_of(E_, fr.fields[0]))
+    E.extra_intrinsics[r"TransactionBuilder::fee_for_output$"] = aligned("fee_for_output", lambda E_, fr: z3.IntVal(0))
+    E.extra_intrinsics[r"MinOutputAdaCalculator::calculate_ada$"] = fresh_coin_result("min_ada")
+    E.extra_intrinsics[r"MinOutputAdaCalculator::new_empty$"] = lambda E_, c, a: VEnum("Result", "Ok", [VOpaque("calc")])
+    E.extra_intrinsics[r"MinOutputAdaCalculator::set_\w+$"] = lambda E_, c, a: UNIT
+    E.extra_intrinsics[r"TransactionBuilderConfig::utxo_cost$"] = lambda E_, c, a: VOpaque("data_cost")
+    def pack(E_, c, args):
+        if may_fail(E_, "pack"):
+            return VEnum("Result", "Err", [VOpaque("err:pack")])
+        k = E_.fresh("pack_n")
+        n = E_.choose([k == 0, k == 1, k == 2], "bundles packed")
+        items = []
+        for j in range(n):
+            q = E_.fresh("packed_q"); o = E_.fresh("packed_other", "bool")
+            E_.pc.append(z3.And(q >= 0, q <= U64))
+            items.append(VM.mk_ma(q, o, z3.FreshConst(E_.U, "packed_rest")))
+        return VEnum("Result", "Ok", [VSeq(items, "vec")])
+    E.extra_intrinsics[r"(^|::)pack_nfts_for_change$"] = pack
+    def shortage(E_, c, args):
+        # over-approximated: ANY verdict (none / some shortage / failure) whatever the totals are — the balance may not depend on it
+        v = E_.fresh("shortage_verdict")
+        i = E_.choose([v == 0, v == 1, v == 2], "shortage verdict")
+        if i == 0:
+            return VEnum("Result", "Ok", [VEnum("Option", "None", [])])
+        if i == 1:
+            return VEnum("Result", "Ok", [VEnum("Option", "Some", [VOpaque("shortage")])])
+        return VEnum("Result", "Err", [VOpaque("err:shortage")])
+    E.extra_intrinsics[r"(^|::)get_input_shortage$"] = shortage
+    def add_output(E_, c, args):
+        tb = VM.deref(E_, args[0])
+        if may_fail(E_, "add_output"):
+            return VEnum("Result", "Err", [VOpaque("err:add_output")])
+        outs = VM.deref(E_, tb.fields[TB.index("outputs")])
+        VM.deref(E_, outs.fields[0]).items.append(clone(VM.deref(E_, args[1])))
+        return VEnum("Result", "Ok", [UNIT])
+    E.extra_intrinsics[r"TransactionBuilder::add_output$"] = add_output
+    ppc, dnb = z3.Bool("prefer_pure_change"), z3.Bool("do_not_burn_extra_change")
+    frk, frc = z3.Int("fee_request_kind"), E.sym_int("fee_request_coin", "u64")
+    prev = SymValue(E, "prev")          # one output already in the builder (part of total_output): leftovers may be folded into it
+    E.assume(prev.has)                  # a (possibly empty) bundle is present: no structural fork
+    def prev_out():
+        return E.mk_struct("TransactionOutput", address=VLazy("prev_addr", "Address"), amount=VM.mk_value(prev.coin, (prev.q, prev.other, prev.rest)))
+    def mk():
+        cfg = E.mk_struct("TransactionBuilderConfig", prefer_pure_change=VBool(ppc), do_not_burn_extra_change=VBool(dnb))
+        k = E.choose([frk == 0, frk == 1, frk == 2], "fee request")
+        fr = VEnum("TxBuilderFee", ["Unspecified", "NotLess", "Exactly"][k], [] if k == 0 else [VM.bn(frc)])
+        tb = E.mk_struct("TransactionBuilder", config=cfg, outputs=VStruct("TransactionOutputs", [VSeq([prev_out()], "vec")]), fee=VLazy("old_fee", "Option<BigNum>"), fee_request=fr)
+        if NODATUM:
+            return [R(tb, "self"), R(VLazy("change_addr", "Address"), "address"), VEnum("Option", "None", []), VEnum("Option", "None", [])]
+        return [R(tb, "self"), R(VLazy("change_addr", "Address"), "address"), VLazy("datum", "Option<DataOption>"), VLazy("script_ref", "Option<ScriptRef>")]
+    ob = Obligation(ctx, "c05_e2_change_step_balances", "one call from an arbitrary builder state: totals lovelace all u64 + one arbitrary asset all u64 (others abstract); fee request Unspecified / NotLess / Exactly "
+                    "with any coin; raw size fees, min-ADA values, packed bundles (0..2 per round, <= 3 rounds), output admission: arbitrary; prefer_pure_change / do_not_burn_extra_change: both",
+                    ["TransactionBuilder::add_change_if_needed_with_optional_script_and_datum", "burn_extra", "has_assets", "TransactionBuilder::set_final_fee", "get_input_shortage", "<Value as PartialOrd>::partial_cmp", "Value::checked_add / checked_sub (summaries)"],
+                    fallback_native="e2n_c05_change_step")
+    seen, panics = {}, {}
+    for o in E.explore("TransactionBuilder::add_change_if_needed_with_optional_script_and_datum", mk, max_paths=MAXP):
+        if o.kind == "bound":
+            continue
+        if o.kind != "return":
+            panics[o.msg[:60]] = panics.get(o.msg[:60], 0) + 1      # C05 speaks about reported successes only
+            continue
+        if o.value.variant != "Ok":
+            continue
+        E.enter(o)
+        tb = VM.deref(E, o.args[0])
+        fee = VM.deref(E, tb.fields[TB.index("fee")])
+        if isinstance(fee, VLazy):
+            fee = E.force_enum(fee)
+        if fee.variant != "Some":
+            ob.violation("Ok but no fee stored"); continue
+        f = VM.deref(E, fee.fields[0])
+        f = f.fields[0].t if isinstance(f, VStruct) else E.nav(f, [("field", 0, "u64")]).t
+        added = VM.deref(E, VM.deref(E, tb.fields[TB.index("outputs")]).fields[0]).items
+        coin_sum, q_sum = -prev.coin, -prev.q            # what the call added = outputs afterwards - the output that was there
+        for a in added:
+            a = VM.deref(E, a)
+            c_, ma_ = VM.value_parts(E, a.fields[P.struct_fields["TransactionOutput"].index("amount")])
+            coin_sum = coin_sum + c_
+            if ma_ is not None:
+                q_sum = q_sum + ma_[0]
+        flag = VM.deref(E, o.value.fields[0])
+        added = added[1:]
+        key = (len(added), str(z3.simplify(flag.t)) if isinstance(flag, VBool) else "?")
+        seen[key] = seen.get(key, 0) + 1
+        ob.vc("Ok with %d change outputs => lovelace: inputs == outputs + change + fee" % len(added), o.pc, tin.coin == tout.coin + coin_sum + f, info=dict(n=len(added)))
+        ob.vc("Ok with %d change outputs => arbitrary asset: inputs == outputs + change" % len(added), o.pc, tin.q == tout.q + q_sum, info=dict(n=len(added)))
+    ctx.log("  [E2] change step: Ok outcomes by (outputs added, flag): %s; panicking paths (outside C05): %s" % (seen, panics))
+    if not any(k[0] == 0 for k in seen) or not any(k[0] == 1 for k in seen) or not any(k[0] >= 2 for k in seen):
+        ob.fail("expected Ok outcomes with 0, 1 and >= 2 added outputs, saw %s" % sorted(seen))
+    ob.finish(E)
+
+
+def fee_alignment_contracts(ctx):
+    """the two contracts change_step assumes of the fee helpers, from their MIR; the size-dependent free function
+    min_fee(&builder) is an arbitrary coin (each call its own) or a failure, add_output on the scratch copy admits or refuses"""
+    P = ctx.P
+    TB = P.struct_fields["TransactionBuilder"]
+    for fn in ("min_fee", "fee_for_output"):
+        E = Engine(P, opaque=[r"::to_json$"])
+        VM.install(E)
+        frk, frc = z3.Int("fee_request_kind"), E.sym_int("fee_request_coin", "u64")
+        def raw(E_, c, args):
+            good = E_.fresh("raw_ok", "bool")
+            if E_.choose([good, z3.Not(good)], "raw min_fee") == 1:
+                return VEnum("Result", "Err", [VOpaque("err:raw")])
+            v = E_.fresh("raw_min_fee")
+            E_.pc.append(z3.And(v >= 0, v <= U64))
+            return VEnum("Result", "Ok", [VM.bn(v)])
+        E.extra_intrinsics[r"^(builders::)?tx_builder::min_fee$"] = raw
+        def add_output(E_, c, args):
+            good = E_.fresh("admitted", "bool")
+            return VEnum("Result", "Ok", [UNIT]) if E_.choose([good, z3.Not(good)], "add_output") == 0 else VEnum("Result", "Err", [VOpaque("err:add_output")])
+        E.extra_intrinsics[r"TransactionBuilder::add_output$"] = add_output
+        E.extra_intrinsics[r"^<TransactionBuilder as Clone>::clone$"] = lambda E_, c, a: clone(VM.deref(E_, a[0]))
+        def mk():
+            k = E.choose([frk == 0, frk == 1, frk == 2], "fee request")
+            fr = VEnum("TxBuilderFee", ["Unspecified", "NotLess", "Exactly"][k], [] if k == 0 else [VM.bn(frc)])
+            tb = E.mk_struct("TransactionBuilder", fee=VLazy("old_fee", "Option<BigNum>"), fee_request=fr)
+            return [R(tb, "self")] + ([R(VLazy("output", "TransactionOutput"), "output")] if fn == "fee_for_output" else [])
+        ob = Obligation(ctx, "c05_e2_fee_alignment_%s" % fn, "arbitrary builder; fee request Unspecified / NotLess(n) / Exactly(x), n and x all u64; raw size fees arbitrary per call",
+                        ["TransactionBuilder::%s" % fn, "TxBuilderFee::get_new_fee", "TransactionBuilder::set_final_fee"])
+        nok = 0
+        for o in E.explore("TransactionBuilder::%s" % fn, mk, max_paths=400):
+            if o.kind != "return":
+                continue                    # C05 speaks about reported successes
+            if o.value.variant != "Ok":
+                continue
+            nok += 1
+            E.enter(o)
+            r = VM.deref(E, o.value.fields[0]).fields[0].t
+            if fn == "min_fee":
+                ob.vc("Exactly(x) => x; NotLess(n) => a fee >= n", o.pc, z3.And(z3.Implies(frk == 2, r == frc.t), z3.Implies(frk == 1, r >= frc.t)))
+            else:
+                ob.vc("Exactly(_) => the fee does not move (0)", o.pc, z3.Implies(frk == 2, r == 0))
+            tb = VM.deref(E, o.args[0])
+            f = VM.deref(E, tb.fields[TB.index("fee")])
+            if not (isinstance(f, VLazy) and f.path == "old_fee"):
+                ob.violation("%s modifies the builder's own fee" % fn)
+        if nok < 3:
+            ob.fail("expected Ok outcomes for the three fee requests, saw %d" % nok)
+        ob.finish(E)
